@@ -171,6 +171,7 @@ func propC13(w *World, r *Report) {
 	}
 	RunLosslessFor(w, r, "C13", newBoundsRun(w))
 	r.Floor("dicttypes", 15)
+	checkOffSize(w, r)
 }
 
 func constEqual(a, b string) bool {
@@ -299,4 +300,187 @@ func callResultKind(v ssa.Value) string {
 		}
 	}
 	return "other"
+}
+
+// checkOffSize: CFF INDEX (TN5176 section 5): offsets are 1-based, the
+// largest one is 1 + (total length of the data), and offSize must be large
+// enough for it.  Decided structurally in cffIndex.encode: the value X that
+// the offset-size selection compares with 2^(8*offSize) (loop form, shift
+// form or the offsSize helper) is the accumulated data length plus a
+// constant >= 1, the written offsets start at 1, and the helper's thresholds
+// are 2^8, 2^16, 2^24.
+func checkOffSize(w *World, r *Report) {
+	r.Rule("offsize: in cffIndex.encode the quantity whose size selects offSize is (sum of the item lengths) + c with c >= 1 (the largest offset written is 1 + that sum), the selection has the form 'grow offSize while X >= 2^(8*offSize)' (as a comparison with 1<<(8*offSize), as X>>(8*offSize) > 0, or through offsSize(X)), the offsets written start at 1, and offsSize(x) returns the least k with x < 2^(8k)")
+	fn := w.Func("(cff.cffIndex).encode")
+	if fn == nil {
+		r.Fatal("(cff.cffIndex).encode does not resolve")
+		return
+	}
+	br := newBoundsRun(w)
+	p := br.prover(fn)
+	// S: accumulator over len(item)
+	var acc *ssa.Phi
+	for _, b := range fn.Blocks {
+		for _, in := range b.Instrs {
+			ph, ok := in.(*ssa.Phi)
+			if !ok {
+				break
+			}
+			if !isIntType(ph.Type()) || !isLoopPhi(ph) || !is64(ph.Type()) {
+				continue
+			}
+			for _, e := range ph.Edges {
+				bo, ok := e.(*ssa.BinOp)
+				if !ok || bo.Op != token.ADD || bo.X != ssa.Value(ph) {
+					continue
+				}
+				if call, ok := bo.Y.(*ssa.Call); ok {
+					if bi, ok := call.Call.Value.(*ssa.Builtin); ok && bi.Name() == "len" {
+						if _, isSlice := call.Call.Args[0].Type().Underlying().(*types.Slice); isSlice {
+							acc = ph
+						}
+					}
+				}
+			}
+		}
+	}
+	key := r.MkKey("offsize", "cffIndex.encode", "selection operand")
+	if acc == nil {
+		r.Fail("offsize", key, w.Pos(fn.Pos()), "no accumulator over the item lengths found", nil)
+		return
+	}
+	accAtom := atom{aVal, acc}
+	isSel := func(x ssa.Value) (bool, string) {
+		l := p.linOf(x)
+		if len(l.t) != 1 || l.t[accAtom] != 1 {
+			return false, ""
+		}
+		if l.k >= 1 {
+			return true, ""
+		}
+		return true, fmt.Sprintf("the size of the offsets is chosen for %s (the data length%+d), but the largest offset written is the data length + 1: when the data length is exactly 2^(8k)-1 the last offset does not fit", p.linStr(l), l.k)
+	}
+	found := false
+	report := func(pos token.Pos, bad string, form string) {
+		found = true
+		if bad == "" {
+			r.OK("offsize", key, w.Pos(pos), "selection by "+form+" on data length + c, c >= 1")
+		} else {
+			r.Fail("offsize", key, w.Pos(pos), bad, nil)
+		}
+	}
+	shiftBy8 := func(v ssa.Value) bool { // 8*offSize
+		bo, ok := stripConv(v).(*ssa.BinOp)
+		if !ok || bo.Op != token.MUL {
+			return false
+		}
+		c1, ok1 := bconstInt(bo.X)
+		c2, ok2 := bconstInt(bo.Y)
+		return ok1 && c1 == 8 || ok2 && c2 == 8
+	}
+	for _, b := range fn.Blocks {
+		for _, in := range b.Instrs {
+			switch x := in.(type) {
+			case *ssa.BinOp:
+				switch x.Op {
+				case token.GEQ, token.LSS:
+					// X >= 1 << (8*offSize)   /   X < 1 << (8*offSize)
+					if sh, ok := stripConv(x.Y).(*ssa.BinOp); ok && sh.Op == token.SHL && shiftBy8(sh.Y) {
+						if c, ok := bconstInt(sh.X); ok && c == 1 {
+							if ok, bad := isSel(x.X); ok {
+								report(x.Pos(), bad, "comparison with 1<<(8*offSize)")
+							}
+						}
+					}
+				case token.GTR, token.NEQ:
+					// X >> (8*offSize) > 0
+					if sh, ok := stripConv(x.X).(*ssa.BinOp); ok && sh.Op == token.SHR && shiftBy8(sh.Y) {
+						if c, ok := bconstInt(x.Y); ok && c == 0 {
+							if ok, bad := isSel(sh.X); ok {
+								report(x.Pos(), bad, "X >> (8*offSize) > 0")
+							}
+						}
+					}
+				}
+			case *ssa.Call:
+				if callee := x.Call.StaticCallee(); callee != nil && fnName(callee) == "cff.offsSize" && len(x.Call.Args) == 1 {
+					if ok, bad := isSel(stripConv(x.Call.Args[0])); ok {
+						report(x.Pos(), bad, "offsSize(X)")
+					}
+				}
+			}
+		}
+	}
+	if !found {
+		r.Fail("offsize", key, w.Pos(fn.Pos()), "no selection of offSize from the accumulated data length was recognised (comparison with 1<<(8*offSize), X>>(8*offSize) > 0, or offsSize(X))", nil)
+	}
+	// offsets start at 1
+	k2 := r.MkKey("offsize", "cffIndex.encode", "first offset")
+	ok1 := false
+	for _, b := range fn.Blocks {
+		for _, in := range b.Instrs {
+			ph, ok := in.(*ssa.Phi)
+			if !ok {
+				break
+			}
+			if bt, ok := ph.Type().Underlying().(*types.Basic); !ok || bt.Kind() != types.Uint32 || !isLoopPhi(ph) {
+				continue
+			}
+			for i, e := range ph.Edges {
+				if !ph.Block().Dominates(ph.Block().Preds[i]) {
+					if c, ok := bconstInt(e); ok && c == 1 {
+						ok1 = true
+					}
+				}
+			}
+		}
+	}
+	if ok1 {
+		r.OK("offsize", k2, w.Pos(fn.Pos()), "the running offset starts at 1")
+	} else {
+		r.Fail("offsize", k2, w.Pos(fn.Pos()), "no 32-bit running offset that starts at 1 found (INDEX offsets are relative to the byte before the data)", nil)
+	}
+	// helper thresholds
+	if h := w.Func("cff.offsSize"); h != nil {
+		k3 := r.MkKey("offsize", "cff.offsSize", "thresholds")
+		good, n := true, 0
+		for _, b := range h.Blocks {
+			if len(b.Instrs) == 0 {
+				continue
+			}
+			ret, ok := b.Instrs[len(b.Instrs)-1].(*ssa.Return)
+			if !ok {
+				continue
+			}
+			k, ok := bconstInt(ret.Results[0])
+			if !ok {
+				good = false
+				continue
+			}
+			n++
+			if k == 4 {
+				continue
+			}
+			// the guard that leads here: i < 1<<(8k)
+			gs := guardsOf(b)
+			if len(gs) == 0 {
+				good = false
+				continue
+			}
+			cmp, ok := gs[0].cond.(*ssa.BinOp)
+			c, isC := int64(0), false
+			if ok {
+				c, isC = bconstInt(cmp.Y)
+			}
+			if !ok || !isC || cmp.Op != token.LSS || !gs[0].then || c != int64(1)<<uint(8*k) {
+				good = false
+			}
+		}
+		if good && n == 4 {
+			r.OK("offsize", k3, w.Pos(h.Pos()), "x < 2^8 -> 1, < 2^16 -> 2, < 2^24 -> 3, else 4")
+		} else {
+			r.Fail("offsize", k3, w.Pos(h.Pos()), "offsSize does not return the least k with x < 2^(8k) in the recognised form", nil)
+		}
+	}
+	r.Floor("offsize", 3)
 }
